@@ -35,32 +35,35 @@ type MSScript struct {
 // bytesSlack: the extractors estimate the room left in a batch conservatively
 // (they subtract a length-prefix allowance at each of up to four nesting
 // levels), so a chunk whose standalone encoding is within a few bytes of
-// max_size is already treated as "does not fit" — the same no-progress loop.
+// max_size is already treated as "does not fit".
 const bytesSlack = 24
 
-// risk classifies the shapes of listed non-terminating findings.
-func (s *MSScript) risk() string {
+// oversize reports whether some indivisible unit (a log record, span, data
+// point or profile with its wrappers; a container without items) does not fit
+// into an empty batch of max_size: the shapes on which MergeSplit used to make
+// no progress (repaired; they are generated like every other shape now).
+func (s *MSScript) oversize() bool {
 	if s.Max == 0 {
-		return ""
+		return false
 	}
 	for _, p := range s.Payloads {
 		v, err := sig.Decode(s.Signal, p)
 		if err != nil {
-			return ""
+			return false
 		}
 		if s.Sizer == "bytes" {
 			for _, sz := range sig.StandaloneSizes(v) {
 				if sz+bytesSlack > s.Max {
-					return "hang-no-progress"
+					return true
 				}
 			}
 		} else if s.Signal == sig.Profiles {
 			if sig.MaxSamplesPerProfile(v.(pprofile.Profiles)) > s.Max {
-				return "hang-no-progress"
+				return true
 			}
 		}
 	}
-	return ""
+	return false
 }
 
 func genMS(t *rapid.T) MSScript {
@@ -93,22 +96,19 @@ func genMS(t *rapid.T) MSScript {
 		}
 	}
 	if s.Sizer == "items" {
-		lo := 1
-		if s.Signal == sig.Profiles {
-			lo = maxAlone // exclude the listed shape by construction
-			if lo < 1 {
-				lo = 1
-			}
-		}
 		if rapid.IntRange(0, 9).Draw(t, "nomax") == 0 {
 			s.Max = 0
 		} else {
-			s.Max = rapid.IntRange(lo, lo+total+2).Draw(t, "max")
+			s.Max = rapid.IntRange(1, maxAlone+total+3).Draw(t, "max")
 		}
 	} else {
-		if rapid.IntRange(0, 9).Draw(t, "nomax") == 0 {
+		switch k := rapid.IntRange(0, 9).Draw(t, "nomax"); {
+		case k == 0:
 			s.Max = 0
-		} else {
+		case k <= 3 && maxAlone >= 2:
+			// some indivisible unit is larger than max_size
+			s.Max = rapid.IntRange(1, maxAlone+bytesSlack-1).Draw(t, "smallmax")
+		default:
 			lo := maxAlone + bytesSlack
 			s.Max = rapid.IntRange(lo, lo+totalBytes+8).Draw(t, "max")
 		}
@@ -132,18 +132,17 @@ func runMS(s MSScript) (nontrivial bool, key string, f *vt.Finding) {
 		h.Write(p)
 	}
 	key = string(h.Sum(nil))
-	if r := s.risk(); r != "" && !vt.IsChild() {
-		// listed non-terminating shape: never run in-process
-		cMS.Exclude(r + "/" + s.Signal + "/" + s.Sizer)
-		return false, key, nil
-	}
-	cMS.HangGuard(20*time.Second, s, "hang/"+s.Sizer, func() {
-		nontrivial, f = runMSInner(&s)
+	return runMSOn(cMS, s, key)
+}
+
+func runMSOn(c *vt.C, s MSScript, key string) (nontrivial bool, k string, f *vt.Finding) {
+	c.HangGuard(20*time.Second, s, "hang-no-progress/"+s.Signal+"/"+s.Sizer, func() {
+		nontrivial, f = runMSInner(c, &s)
 	})
 	return nontrivial, key, f
 }
 
-func runMSInner(s *MSScript) (nontrivial bool, f *vt.Finding) {
+func runMSInner(cMS *vt.C, s *MSScript) (nontrivial bool, f *vt.Finding) {
 	szt := xh.SizerType(s.Sizer)
 	var in, out []pitems.Item
 	var pending exporterhelper.Request
@@ -232,6 +231,9 @@ func runMSInner(s *MSScript) (nontrivial bool, f *vt.Finding) {
 		}
 	}
 	cMS.Class("signal:"+s.Signal, "sizer:"+s.Sizer)
+	if s.oversize() {
+		cMS.Class("oversize-unit", "oversize-unit:"+s.Signal+":"+s.Sizer)
+	}
 	if splits > 0 {
 		cMS.Class("split")
 	}
@@ -248,9 +250,9 @@ func TestMergeSplit(t *testing.T) {
 	vt.Run(t, cMS, vt.N(1500, 60000), genMS, runMS)
 }
 
-// Probes: the listed non-terminating shapes, run in child processes.  The
-// generator forces max below the largest indivisible unit.
-var cProbe = vt.New("C04", "mergesplit-probes")
+// Oversize: max_size forced below the largest indivisible unit — the shapes on
+// which MergeSplit used to make no progress.  Same interpreter, same oracle.
+var cProbe = vt.New("C04", "mergesplit-oversize")
 
 func genProbe(rt *rapid.T) MSScript {
 	s := genMS(rt)
@@ -284,25 +286,10 @@ func genProbe(rt *rapid.T) MSScript {
 
 func runProbe(s MSScript) (bool, string, *vt.Finding) {
 	key := fmt.Sprintf("%v", s)
-	if s.risk() == "" {
-		return false, key, nil
-	}
-	f, hung, err := cMS.Child("TestMergeSplit", s, 8*time.Second)
-	if err != nil {
-		cProbe.Inconclusive("probe child: %v", err)
-		return false, key, nil
-	}
-	if hung {
-		f = vt.Failf("hang-no-progress/"+s.Signal+"/"+s.Sizer, "MergeSplit does not return when one indivisible unit is larger than max_size=%d (%s sizer)", s.Max, s.Sizer)
-		cProbe.Class("probe-hung")
-	} else if f == nil {
-		cProbe.Class("probe-terminated-and-held")
-	} else {
-		cProbe.Class("probe-failed:" + f.Sig)
-	}
-	return true, key, f
+	nt, _, f := runMSOn(cProbe, s, key)
+	return nt && s.oversize(), key, f
 }
 
 func TestMergeSplitProbes(t *testing.T) {
-	vt.Run(t, cProbe, vt.N(6, 40), genProbe, runProbe)
+	vt.Run(t, cProbe, vt.N(600, 20000), genProbe, runProbe)
 }
